@@ -7,7 +7,7 @@ from .. import compare, model, zoo
 from . import common
 
 BUDGET = {"quick": dict(seconds=45, cases=10**9), "thorough": dict(seconds=600, cases=10**9)}
-RULE = ("cases: seeded operator specs (every class at the root, nestings to depth 2-3, batch shapes (), (2,), (3,2), (2,1)) x "
+RULE = ("cases: seeded operator specs (every class at the root, nestings to depth 2-3, batch shapes (), (2,), (3,2), (2,1), (2,3,2)) x "
         "index tuples from the property's grammar {int incl. negative, slices selecting >= 1 element (None/negative/step/"
         "over-long/stop == size), one Ellipsis, 0-d / 1-d LongTensor, python list, rank-2 broadcasting LongTensors with a "
         "matrix position} of length <= ndim, debug on/off, plus diagonal(); oracle: the same index applied by torch to the "
@@ -194,7 +194,7 @@ def gen_cases(ctx):
         root = classes[(i + ctx.shard) % len(classes)]
         i += 1
         spec = common.random_spec(rng, root=root, maxdepth=2 if ctx.tier == "quick" else 3,
-                                  batches=[[], [], [2], [3, 2], [2, 1]], sizes=[1, 2, 3, 4, 5, 6, 8],
+                                  batches=[[], [], [2], [3, 2], [2, 1], [2, 3, 2]], sizes=[1, 2, 3, 4, 5, 6, 8],
                                   kinds=("rect", "square", "sym", "psd", "pd", "tril"))
         shape = list(spec["batch"]) + [spec["n"], spec["m"]]
         idxs = [gen_index(rng, shape) for _ in range(8)]
